@@ -1,15 +1,15 @@
-Model/Str.vo Model/Str.glob Model/Str.v.beautified Model/Str.required_vo: Model/Str.v 
-Model/Str.vio: Model/Str.v 
-Model/Str.vos Model/Str.vok Model/Str.required_vos: Model/Str.v 
 Model/Path.vo Model/Path.glob Model/Path.v.beautified Model/Path.required_vo: Model/Path.v Model/Str.vo
 Model/Path.vio: Model/Path.v Model/Str.vio
 Model/Path.vos Model/Path.vok Model/Path.required_vos: Model/Path.v Model/Str.vos
-Proofs/StrProofs.vo Proofs/StrProofs.glob Proofs/StrProofs.v.beautified Proofs/StrProofs.required_vo: Proofs/StrProofs.v Model/Str.vo
-Proofs/StrProofs.vio: Proofs/StrProofs.v Model/Str.vio
-Proofs/StrProofs.vos Proofs/StrProofs.vok Proofs/StrProofs.required_vos: Proofs/StrProofs.v Model/Str.vos
+Model/Str.vo Model/Str.glob Model/Str.v.beautified Model/Str.required_vo: Model/Str.v 
+Model/Str.vio: Model/Str.v 
+Model/Str.vos Model/Str.vok Model/Str.required_vos: Model/Str.v 
 Proofs/PathProofs.vo Proofs/PathProofs.glob Proofs/PathProofs.v.beautified Proofs/PathProofs.required_vo: Proofs/PathProofs.v Model/Str.vo Model/Path.vo Proofs/StrProofs.vo
 Proofs/PathProofs.vio: Proofs/PathProofs.v Model/Str.vio Model/Path.vio Proofs/StrProofs.vio
 Proofs/PathProofs.vos Proofs/PathProofs.vok Proofs/PathProofs.required_vos: Proofs/PathProofs.v Model/Str.vos Model/Path.vos Proofs/StrProofs.vos
+Proofs/StrProofs.vo Proofs/StrProofs.glob Proofs/StrProofs.v.beautified Proofs/StrProofs.required_vo: Proofs/StrProofs.v Model/Str.vo
+Proofs/StrProofs.vio: Proofs/StrProofs.v Model/Str.vio
+Proofs/StrProofs.vos Proofs/StrProofs.vok Proofs/StrProofs.required_vos: Proofs/StrProofs.v Model/Str.vos
 Properties/C13.vo Properties/C13.glob Properties/C13.v.beautified Properties/C13.required_vo: Properties/C13.v Model/Str.vo Model/Path.vo Proofs/StrProofs.vo Proofs/PathProofs.vo
 Properties/C13.vio: Properties/C13.v Model/Str.vio Model/Path.vio Proofs/StrProofs.vio Proofs/PathProofs.vio
 Properties/C13.vos Properties/C13.vok Properties/C13.required_vos: Properties/C13.v Model/Str.vos Model/Path.vos Proofs/StrProofs.vos Proofs/PathProofs.vos
